@@ -208,13 +208,16 @@ def classify_off_surface(sh, s, fr, P0, D0, pl_rec, near_par, tol_s):
     if sh.is_conic():
         if near_par:
             a_coef = np.abs((1 + sh.k) * d0l[:, 2] ** 2 + d0l[:, 0] ** 2 + d0l[:, 1] ** 2)
-            if np.all(a_coef < 1e-6):
+            # (the leading coefficient only has to be small, not tiny: with a = 2e-5 the textbook formula still loses
+            #  eight digits; the explanation itself is verified bit for bit just below)
+            if np.all(a_coef < 1e-3):
                 # as-built model of the known mechanism: the textbook quadratic evaluated exactly as the
                 # library does (same expression order, same inputs: untilted frame = plain subtraction)
                 Pl_, Dl_ = asbuilt_localize(P0, D0, s, float(fr.o[2]))
                 t_ab = textbook_conic_distance(Pl_, Dl_, S.fnum(s['radius']), sh.k)
                 pred = Pl_ + t_ab[:, None] * Dl_
-                if np.all(np.linalg.norm(pred - pl_rec, axis=1) <= 1e-9 * (1 + np.abs(t_ab))):
+                tilted_ = any(s.get(q) for q in ('rx', 'ry', 'rz'))
+                if np.all(np.linalg.norm(pred - pl_rec, axis=1) <= (1e-9 if tilted_ else 1e-12) * (1 + np.abs(t_ab))):
                     return 'on-surface:conic-intersection-cancellation'
                 return 'on-surface:unexplained'
         # full quadric c(x^2+y^2+(1+k)z^2) - 2z = 0 satisfied, but not the vertex sheet -> far-sheet root
@@ -447,7 +450,7 @@ def check_case(case, rec):
                         Pl_, Dl_ = asbuilt_localize(Pall[k - 1][mm], Dall[k - 1][mm], s, float(fr.o[2]))
                         t_ab = textbook_conic_distance(Pl_, Dl_, S.fnum(s['radius']), sh.k)
                         pred = Pl_ + t_ab[:, None] * Dl_
-                        a_small = np.abs((1 + sh.k) * Dl_[:, 2] ** 2 + Dl_[:, 0] ** 2 + Dl_[:, 1] ** 2) < 1e-6
+                        a_small = np.abs((1 + sh.k) * Dl_[:, 2] ** 2 + Dl_[:, 0] ** 2 + Dl_[:, 1] ** 2) < 1e-3
                         tilted_ = any(s.get(q) for q in ('rx', 'ry', 'rz'))
                         hit = a_small & (np.linalg.norm(pred - fr.to_local_p(Pall[k][mm]), axis=1)
                                          <= (1e-9 if tilted_ else 1e-12) * (1 + np.abs(t_ab)))
@@ -466,6 +469,17 @@ def check_case(case, rec):
                 x_, y_, z_ = fr.to_local_p(Pall[k][only_lib]).T
                 Fq = sh.c * (x_ * x_ + y_ * y_ + (1 + sh.k) * z_ * z_) - 2 * z_
                 prev_lib = np.all(np.isfinite(refP[k - 1][only_lib]), axis=1)
+                if (not cancel_explained and hostile and sh.is_conic() and sh.c != 0 and abs(1 + sh.k) < 1e-6
+                        and np.all(np.isfinite(Pall[k - 1][only_lib]))):
+                    # the library's finite point IS what the textbook quadratic gives from its own previous record
+                    # (bit-exact replica): with 1 + k = -2e-10 the reference finds only the other sheet, 1e10 away
+                    mm_ = np.where(only_lib)[0]
+                    Pl_, Dl_ = asbuilt_localize(Pall[k - 1][mm_], Dall[k - 1][mm_], s, float(fr.o[2]))
+                    t_ab = textbook_conic_distance(Pl_, Dl_, S.fnum(s['radius']), sh.k)
+                    pred = Pl_ + t_ab[:, None] * Dl_
+                    tol_ = (1e-9 if any(s.get(q) for q in ('rx', 'ry', 'rz')) else 1e-12)
+                    if np.all(np.linalg.norm(pred - fr.to_local_p(Pall[k][mm_]), axis=1) <= tol_ * (1 + np.abs(t_ab))):
+                        cancel_explained = True
                 keyn = 'nonfinite-when-no-path:' + ('conic-intersection-cancellation' if cancel_explained else
                                                     'conic-far-sheet-root' if (sh.c != 0 and prev_lib.all() and np.all(
                                                         np.abs(Fq) <= 1e-7 * (1 + np.abs(z_)))) else 'unexplained')
